@@ -1,6 +1,7 @@
 (* Props/C13.v - proof obligations of property C13 (SP3 orbit files). *)
 From Coq Require Import Ascii String List Bool Arith ZArith QArith Qabs.
-From Verif Require Import Lib.Text Lib.Decimal Lib.Fixed Lib.Dyadic Spec.C13_Sp3Format Model.C13_Sp3 Gen.C13_Sp3Fields Proofs.C13_Sp3.
+From Verif Require Import Lib.Text Lib.Decimal Lib.Fixed Lib.Dyadic Spec.C13_Sp3Format Model.C13_Sp3 Gen.C13_Sp3Fields Proofs.C13_Sp3 Proofs.C13_Header.
+From Verif Require Model.C02_Formats Proofs.C13_Jdn.
 Import ListNotations.
 Local Open Scope string_scope.
 
@@ -154,6 +155,79 @@ Theorem c13_dataset_fraction_as_ms_refuted :
 Proof. exact c13_dataset_fraction_as_ms_refuted_l. Qed.
 Print Assumptions c13_dataset_fraction_as_ms_refuted.
 
+(* ------------------------------------------------------------------------------------------------
+   Header.  [render_header h] writes the SP3-c/d header of Proofs/C13_Header.v: line 1, line 2, "+" satellite lines (any
+   number of satellites, 17 per line, continuation lines), "++" accuracy lines, both %c, %f and %i lines, comments.
+   Parsed through the header tables regenerated from the parser on this run (T), it yields exactly [meta_of h]; in
+   particular the fields the property lists. *)
+Theorem sp3_header_roundtrip :
+  forall T h, gen_tables = Some T -> hdr_ok h ->
+    exists n, run T all_off init_state true (render_header h) = Some (mkS true None n (meta_of h) []) /\
+              listed_fields h (meta_of h).
+Proof. exact sp3_header_roundtrip_T. Qed.
+Print Assumptions sp3_header_roundtrip.
+
+(* Whole file with that header, through the regenerated tables, WITHOUT assuming distinct epochs: the result is the
+   meta data of the header and the records of [blocks_acc] - every position record in file order, except that a position
+   record directly after an epoch header is dropped when records with the same epoch exist already (midgard's
+   "identical epoch" rule; [drops], [block_recs_gen]). *)
+Theorem sp3_file_roundtrip_full :
+  forall T h bs trailer,
+    gen_tables = Some T -> hdr_ok h -> bs <> [] -> Forall block_ok bs ->
+    Forall bline_ok trailer -> (forall l, In l trailer -> exists c r, l = LOther c r) ->
+    parse_file T all_off (render_header h ++ flat_map render_block bs ++ map render_bline trailer)%list =
+    Some (meta_of h, rev (blocks_acc (dec_value (hbpv7 h) 7) (dec_value (hbclk9 h) 9) [] bs)).
+Proof. exact sp3_file_roundtrip_full_l. Qed.
+Print Assumptions sp3_file_roundtrip_full.
+
+(* ... and with pairwise distinct epochs (every well-formed file): all position records, in file order *)
+Theorem sp3_file_roundtrip_full_distinct :
+  forall T h bs trailer,
+    gen_tables = Some T -> hdr_ok h -> bs <> [] -> Forall block_ok bs -> NoDup (map b_time bs) ->
+    Forall bline_ok trailer -> (forall l, In l trailer -> exists c r, l = LOther c r) ->
+    parse_file T all_off (render_header h ++ flat_map render_block bs ++ map render_bline trailer)%list =
+    Some (meta_of h, flat_map (recs_of_block (dec_value (hbpv7 h) 7) (dec_value (hbclk9 h) 9)) bs).
+Proof. exact sp3_file_roundtrip_full_distinct_l. Qed.
+Print Assumptions sp3_file_roundtrip_full_distinct.
+
+(* the same with an abstract header and repeated epochs *)
+Theorem sp3_file_roundtrip_dups :
+  forall H n m bp bc bs trailer,
+    H <> [] -> run spec_tables all_off init_state true H = Some (mkS true None n m []) ->
+    meta_good m bp bc -> bs <> [] -> Forall block_ok bs ->
+    Forall bline_ok trailer -> (forall l, In l trailer -> exists c r, l = LOther c r) ->
+    parse_file spec_tables all_off (H ++ flat_map render_block bs ++ map render_bline trailer)%list =
+    Some (m, rev (blocks_acc bp bc [] bs)).
+Proof. exact sp3_file_roundtrip_gen_l. Qed.
+Print Assumptions sp3_file_roundtrip_dups.
+
+(* ------------------------------------------------------------------------------------------------
+   The Julian day number used for the Dataset epochs, against the civil calendar of property C02
+   (Model/C02_Formats.days_from_civil / civil_from_days; Props/C02.v civil_roundtrip, civil_roundtrip_valid):
+   for every year (no bound), month 1..12 and day. *)
+Theorem jdn_civil :
+  forall y m d, (1 <= m <= 12)%Z -> jdn y m d = (Verif.Model.C02_Formats.days_from_civil y m d + 2440588)%Z.
+Proof. exact Verif.Proofs.C13_Jdn.jdn_civil. Qed.
+Print Assumptions jdn_civil.
+
+Theorem jdn_inverse :
+  (forall y m d, Verif.Model.C02_Formats.valid_date y m d = true ->
+                 Verif.Model.C02_Formats.civil_from_days (jdn y m d - 2440588) = (y, m, d)) /\
+  (forall z, let '(y, m, d) := Verif.Model.C02_Formats.civil_from_days z in jdn y m d = (z + 2440588)%Z).
+Proof. split; [exact Verif.Proofs.C13_Jdn.jdn_inverse|exact Verif.Proofs.C13_Jdn.jdn_of_day_number]. Qed.
+Print Assumptions jdn_inverse.
+
+(* Dataset epoch of a record in C02's terms: Julian date (0h) of the civil date, exact seconds of day *)
+Theorem dataset_epoch_civil :
+  forall y mo d h mi n7,
+    Verif.Model.C02_Formats.valid_date y mo d = true -> (1000 <= y <= 9999)%Z -> (0 <= h <= 23)%Z -> (0 <= mi <= 59)%Z ->
+    (0 <= n7 < 600000000)%Z ->
+    exists day sod, epoch_of_time all_off (time_string y mo d h mi n7) = Some (day, sod) /\
+                    day == Verif.Model.C02_Formats.jd_of_date y mo d /\
+                    sod == inject_Z (h * 3600 + mi * 60) + inject_Z n7 / 10000000.
+Proof. exact Verif.Proofs.C13_Jdn.dataset_epoch_civil_l. Qed.
+Print Assumptions dataset_epoch_civil.
+
 (* non-vacuity: a concrete header satisfies the header hypothesis, a concrete block the block hypothesis *)
 Example header_hypothesis_satisfiable :
   exists n m, run spec_tables all_off init_state true ex_header = Some (mkS true None n m []) /\
@@ -169,3 +243,15 @@ Example block_text :
    "VG01  20298.880364 -18462.044804   1381.387685     -4.534317 14 14 14 191";
    "PG02      0.000000      0.000000      0.000000 999999.999999              EP  MP"].
 Proof. exact ex_block_lines. Qed.
+Example header_ok_satisfiable : hdr_ok ex_hdr.
+Proof. exact ex_hdr_ok. Qed.
+Example header_text :
+  nth 0 (render_header ex_hdr) "" = "#dP2016  3  1  0  0  0.50000000       2 ORBIT IGb08 HLM  IGS" /\
+  nth 2 (render_header ex_hdr) "" = "+   19   G01G02R07E11C21J02G03G04G05G06G07G08G09G10G11G12G13" /\
+  nth 3 (render_header ex_hdr) "" = "+        G14G15  0  0  0  0  0  0  0  0  0  0  0  0  0  0  0" /\
+  List.length (render_header ex_hdr) = 20%nat.
+Proof. rewrite ex_hdr_text. repeat split. Qed.
+Example duplicate_epoch_rule :
+  map r_sat (rev (blocks_acc (5 # 4) (41 # 40) [] [ex_block; ex_block])) = ["G01"; "G02"; "G02"] /\
+  map r_sat (flat_map (recs_of_block (5 # 4) (41 # 40)) [ex_block; ex_block]) = ["G01"; "G02"; "G01"; "G02"].
+Proof. exact dup_example. Qed.
